@@ -246,7 +246,8 @@ def oracle_wrapper(case, rec):
         if a is FAILED or bb is FAILED:
             continue
         a, bb = float(a), float(bb)
-        same = (a == ref or (a != a and ref != ref)) and (bb == ref or (bb != bb and ref != ref))
+        eq = lambda u, v: u == v or (u != u and v != v) or abs(u - v) <= 1e-9 * max(abs(u), abs(v))
+        same = eq(a, ref) and eq(bb, ref)
         rec.check(same, 'wrapper:%s-differs-from-metric-on-m*x+b' % name, 'x-variant %r points-variant %r metric %r' % (a, bb, ref))
     # R2 wrappers (numpy implementation vs numba metric: equal within rounding)
     for variant in ('classic', 'adjusted'):
@@ -273,7 +274,7 @@ def oracle_wrapper(case, rec):
     if fr is not FAILED:
         with np.errstate(all='ignore'):
             ref = float(m.residuals(y, x * mm + b))
-        rec.check(float(fr) == ref, 'wrapper:linear_fit_residuals', (float(fr), ref))
+        rec.check(float(fr) == ref or abs(float(fr) - ref) <= 1e-9 * max(abs(ref), abs(float(fr))), 'wrapper:linear_fit_residuals', (float(fr), ref))
     # best-fit R2 == squared Pearson correlation
     if n >= 3:
         ref, well = pearson_r2(x, y)
